@@ -132,6 +132,22 @@ func c18(c *Ctx) {
 					if !sess.sync(5 * time.Second) {
 						c.SpecFail("spec", "PING without token, then PING :sync", "", "connection stopped answering", nil)
 					}
+					// "once each", "after dialling": a Connect call on the live connection dials nothing and registers nothing
+					err2 := sess.conn.Connect()
+					sess.sync(5 * time.Second)
+					nNick, nUser := 0, 0
+					for _, l := range sess.srv.Lines() {
+						if strings.HasPrefix(l, "NICK ") {
+							nNick++
+						}
+						if strings.HasPrefix(l, "USER ") {
+							nUser++
+						}
+					}
+					if err2 == nil || nNick != 1 || nUser != 1 {
+						c.SpecFail("spec", desc+", then Connect again while connected", "", fmt.Sprintf("the second Connect returned %v; the connection's transcript has %d NICK and %d USER lines", err2, nNick, nUser),
+							map[string]interface{}{"op": "connect-while-connected", "config": rp, "transcript": sess.srv.Lines()})
+					}
 					// the link drops, the application keeps calling command methods while it is down, then reconnects the same
 					// client: the new connection starts with the registration lines, once each, and nothing else before them
 					if (n/2)%2 == 0 {
